@@ -261,6 +261,24 @@ func checkARAP(c arapCase, o *kit.Obs) error {
 			warmOther = true
 		}
 	}
+	if !c.ZeroIt {
+		// a rigid motion is a fixed point of the alternation whatever the two weightings are: started from it, the
+		// rotation fit returns the same rotation for every cell and the linear solve returns the motion again
+		guess := map[model3d.Coord3D]model3d.Coord3D{}
+		for i, v := range im.V {
+			guess[m3.C3(v)] = m3.C3(want[i])
+		}
+		fixed := a.DeformMap(cm, guess)
+		for i, v := range im.V {
+			got, ok := fixed[m3.C3(v)]
+			if !ok {
+				return fmt.Errorf("%s: DeformMap started from the rigid motion has no entry for vertex %v", what, v)
+			}
+			if d := m3.V3(got).Dist(want[i]); !(d <= 1e-6*(size3(in)+c.T.Norm())) {
+				return fmt.Errorf("%s: DeformMap started from the rigid motion that meets all constraints moved vertex %v to %v, %g away from its place %v", what, v, got, d, want[i])
+			}
+		}
+	}
 	if c.ZeroIt || weights == 3 || (c.Seq && c.Warm && warmOther) {
 		// different weights for the linear solve and for the rotation fit (or a warm start from another pose): the alternation does not descend on
 		// one energy and is not claimed to reach the rigid solution (it settles elsewhere on tori);
